@@ -244,6 +244,44 @@ type c04JwtCase struct {
 	Auth   string `json:"auth"`
 	HasHdr bool   `json:"has_header"`
 	Want   int    `json:"want"` // generator's intent: 1 admit, 0 reject, -1 unasserted
+	// Carrier/Token: a (valid) token placed somewhere else than the Authorization header
+	Carrier string `json:"carrier,omitempty"`
+	Token   string `json:"token,omitempty"`
+}
+
+var c04Carriers = []string{"query-access_token", "form-access_token", "query-token", "cookie-access_token", "cookie-authorization",
+	"header-x-access-token", "header-proxy-authorization", "header-access_token", "header-x-authorization"}
+
+// c04ApplyCarrier puts the token where the carrier says (never into Authorization).
+func c04ApplyCarrier(req *http.Request, carrier, tok string) {
+	switch carrier {
+	case "":
+	case "query-access_token", "query-token":
+		q := req.URL.Query()
+		q.Set(strings.TrimPrefix(carrier, "query-"), tok)
+		req.URL.RawQuery = q.Encode()
+	case "form-access_token":
+		body := "access_token=" + tok + "&x=1"
+		req.Method = http.MethodPost
+		req.Body = io.NopCloser(strings.NewReader(body))
+		req.GetBody = func() (io.ReadCloser, error) { return io.NopCloser(strings.NewReader(body)), nil }
+		req.ContentLength = int64(len(body))
+		req.Header.Set("Content-Type", "application/x-www-form-urlencoded")
+	case "cookie-access_token":
+		req.AddCookie(&http.Cookie{Name: "access_token", Value: tok})
+	case "cookie-authorization":
+		req.AddCookie(&http.Cookie{Name: "Authorization", Value: tok})
+	case "header-x-access-token":
+		req.Header.Set("X-Access-Token", tok)
+	case "header-proxy-authorization":
+		req.Header.Set("Proxy-Authorization", "Bearer "+tok)
+	case "header-access_token":
+		req.Header.Set("access_token", tok)
+	case "header-x-authorization":
+		req.Header.Set("X-Authorization", "Bearer "+tok)
+	default:
+		panic("c04: unknown carrier " + carrier)
+	}
 }
 
 const c04Alnum = "abcdefghijklmnopqrstuvwxyzABCDEFGHIJKLMNOPQRSTUVWXYZ0123456789"
@@ -586,6 +624,21 @@ func c04GenJwt(r *rand.Rand, class, secret, prev string, now int64) c04JwtCase {
 		}
 	case "no-header":
 		return c04JwtCase{Class: class, HasHdr: false, Want: c04Reject}
+	case "valid-token-outside-authorization-header":
+		// the gate reads the Authorization header: a token carried elsewhere is "no bearer token"
+		c04GoodTimes(r, claims, now)
+		key := secret
+		if prev != "" && r.Intn(3) == 0 {
+			key = prev
+		}
+		c := c04JwtCase{Class: class, Want: c04Reject, Carrier: c04Carriers[r.Intn(len(c04Carriers))], Token: c04SignedToken(r, alg, key, claims)}
+		class = class + ":" + c.Carrier
+		c.Class = class
+		if r.Intn(4) == 0 { // ... also when the Authorization header is there but worthless
+			c.HasHdr, c.Auth = true, "Bearer "+c04SignedToken(r, alg, other, claims)
+			c.Class += "+invalid-authorization-header"
+		}
+		return c
 	case "other-scheme":
 		c04GoodTimes(r, claims, now)
 		t := c04SignedToken(r, alg, secret, claims)
@@ -626,7 +679,7 @@ var c04InvalidClasses = []c04Weighted{
 	{"wrong-secret", 8}, {"alg-none", 5}, {"alg-asymmetric-with-hmac-bytes", 5}, {"alg-unknown", 3},
 	{"alg-mismatch", 3}, {"expired", 8}, {"not-yet-valid", 6}, {"sig-bitflip", 6}, {"sig-truncated", 3},
 	{"sig-extended", 2}, {"sig-empty", 2}, {"payload-tampered", 6}, {"header-tampered", 2},
-	{"other-tokens-signature", 3}, {"segments", 3}, {"garbage", 4}, {"no-header", 3}, {"other-scheme", 3},
+	{"other-tokens-signature", 3}, {"segments", 3}, {"garbage", 4}, {"no-header", 3}, {"valid-token-outside-authorization-header", 6}, {"other-scheme", 3},
 	{"iat-in-future", 2}, {"no-bearer-prefix", 1}, {"bearer-prefix-other-case", 2}, {"signed-non-object-payload", 1},
 }
 
@@ -748,7 +801,9 @@ type c04JwtGate struct {
 	// source, when set, supplies the request of each step and the (virtual, jwt.TimeFunc)
 	// time at which it is presented, instead of a freshly generated token at time.Now()
 	source func(step int, label string) (c04JwtCase, int64)
-	layer  string
+	// cur is the case being sent (gates consult its Carrier/Token)
+	cur   c04JwtCase
+	layer string
 	// wantCallback: an unauthorized callback is configured and must run once per rejection
 	wantCallback bool
 	secret       string
@@ -783,16 +838,18 @@ func c04HandlerGate(secret, prev string, callback int) *c04JwtGate {
 		}))
 	}
 	h := handler.Authorize(secret, opts...)(obs.inner())
-	return &c04JwtGate{layer: "handler", secret: secret, prev: prev, obs: obs, close: func() {},
-		do: func(auth string, hasHdr bool) (int, error) {
-			req := httptest.NewRequest(http.MethodGet, "http://localhost/c04/jwt?x=1", http.NoBody)
-			if hasHdr {
-				req.Header.Set("Authorization", auth)
-			}
-			rec := httptest.NewRecorder()
-			h.ServeHTTP(rec, req)
-			return rec.Code, nil
-		}}
+	g := &c04JwtGate{layer: "handler", secret: secret, prev: prev, obs: obs, close: func() {}}
+	g.do = func(auth string, hasHdr bool) (int, error) {
+		req := httptest.NewRequest(http.MethodGet, "http://localhost/c04/jwt?x=1", http.NoBody)
+		if hasHdr {
+			req.Header.Set("Authorization", auth)
+		}
+		c04ApplyCarrier(req, g.cur.Carrier, g.cur.Token)
+		rec := httptest.NewRecorder()
+		h.ServeHTTP(rec, req)
+		return rec.Code, nil
+	}
+	return g
 }
 
 // c04ParserGate drives token.Parser.ParseToken itself (the mechanism Authorize relies on)
@@ -803,12 +860,14 @@ func c04ParserGate(secret, prev string, reset time.Duration) *c04JwtGate {
 	obs := &c04Obs{}
 	p := token.NewParser(token.WithResetDuration(reset))
 	inner := obs.inner()
-	return &c04JwtGate{layer: "parser", secret: secret, prev: prev, obs: obs, close: func() {},
+	var g *c04JwtGate
+	g = &c04JwtGate{layer: "parser", secret: secret, prev: prev, obs: obs, close: func() {},
 		do: func(auth string, hasHdr bool) (int, error) {
 			req := httptest.NewRequest(http.MethodGet, "http://localhost/c04/parser", http.NoBody)
 			if hasHdr {
 				req.Header.Set("Authorization", auth)
 			}
+			c04ApplyCarrier(req, g.cur.Carrier, g.cur.Token)
 			rec := httptest.NewRecorder()
 			tok, err := p.ParseToken(req, secret, prev)
 			if err != nil || tok == nil || !tok.Valid {
@@ -824,6 +883,7 @@ func c04ParserGate(secret, prev string, reset time.Duration) *c04JwtGate {
 			inner(rec, req.WithContext(ctx))
 			return rec.Code, nil
 		}}
+	return g
 }
 
 // c04NewServer builds a Server through the public constructor with every
@@ -912,7 +972,8 @@ func c04EngineGate(secret, prev string) (*c04JwtGate, error) {
 	ts := httptest.NewServer(srv.router)
 	client := ts.Client()
 	n := 0
-	return &c04JwtGate{layer: c04EngineLayerName(), wantCallback: true, secret: secret, prev: prev, obs: obs,
+	var g *c04JwtGate
+	g = &c04JwtGate{layer: c04EngineLayerName(), wantCallback: true, secret: secret, prev: prev, obs: obs,
 		close: func() { ts.Close() },
 		do: func(auth string, hasHdr bool) (int, error) {
 			n++
@@ -927,6 +988,7 @@ func c04EngineGate(secret, prev string) (*c04JwtGate, error) {
 			if hasHdr {
 				req.Header.Set("Authorization", auth)
 			}
+			c04ApplyCarrier(req, g.cur.Carrier, g.cur.Token)
 			resp, err := client.Do(req)
 			if err != nil {
 				return 0, err
@@ -934,7 +996,8 @@ func c04EngineGate(secret, prev string) (*c04JwtGate, error) {
 			_, _ = io.Copy(io.Discard, resp.Body)
 			resp.Body.Close()
 			return resp.StatusCode, nil
-		}}, nil
+		}}
+	return g, nil
 }
 
 type c04JwtStats struct {
@@ -952,8 +1015,8 @@ func c04RunJwtSequence(m *vk.M, idx int, g *c04JwtGate, classes []string, r *ran
 		if len(h) > 60 {
 			h = h[len(h)-60:]
 		}
-		return fmt.Sprintf("case=%d;layer=%s;step=%d;secret=%q;prev=%q;class=%s;authorization=%q;history(last %d)=%s",
-			idx, g.layer, step, g.secret, g.prev, c.Class, c.Auth, len(h), strings.Join(h, ","))
+		return fmt.Sprintf("case=%d;layer=%s;step=%d;secret=%q;prev=%q;class=%s;authorization=%q;token-carried-in=%q;token=%q;history(last %d)=%s",
+			idx, g.layer, step, g.secret, g.prev, c.Class, c.Auth, c.Carrier, c.Token, len(h), strings.Join(h, ","))
 	}
 	for step, cls := range classes {
 		if g.virtual != nil {
@@ -976,6 +1039,7 @@ func c04RunJwtSequence(m *vk.M, idx int, g *c04JwtGate, classes []string, r *ran
 		}
 		m.Current(desc(step, c))
 		g.obs.reset()
+		g.cur = c
 		status, err := g.do(c.Auth, c.HasHdr)
 		if err != nil {
 			m.Inconclusive("transport error at %s: %v", desc(step, c), err)
@@ -1061,7 +1125,7 @@ func c04RunJwtSequence(m *vk.M, idx int, g *c04JwtGate, classes []string, r *ran
 				m.Count("jwt.unasserted_admitted."+why, 1)
 			}
 		}
-		m.Case(vk.Digest(g.layer, c.Class, c.Auth), want != c04Unasserted)
+		m.Case(vk.Digest(g.layer, c.Class, c.Auth, c.Token), want != c04Unasserted)
 		if m.WantSample() && (step == 7 || step == 8) && idx%3 == 1 {
 			a := c.Auth
 			if len(a) > 120 {
